@@ -4,7 +4,7 @@
 //! Taps): NotReady -> Ready; Ready -> None is a violation; a non-finite Some is a violation; the
 //! step of the first Some must match the documented table; a wrapper whose inner view (a Script)
 //! delivers nothing must keep answering what it answered right after construction.
-//! "For ever" is restated as: no relapse and no non-finite value within runs of 10^4 (quick) /
+//! "For ever" is restated as: no relapse and no non-finite value within runs of 7x10^4 (quick) /
 //! 10^6 (thorough) updates.
 
 use super::{hash_str, mix, show_inputs};
@@ -383,7 +383,8 @@ fn dispatch<T: Scalar>(cfg: &Cfg, sect: Sect, j: u64, rng: &mut Rng, out: &mut T
         }
         Sect::Long => {
             // "for ever": long runs, no relapse, no non-finite value
-            let len = if T::EXACT { 150 } else { cfg.tier.pick(10_000, 1_000_000) };
+            // longer than 2^16 even in the quick tier: a step counter narrowed to 16 bits wraps there
+            let len = if T::EXACT { 150 } else { cfg.tier.pick(70_000, 1_000_000) };
             let n = *rng.pick(&[2usize, 3, 5, 9, 20]);
             let all = all_unary(n);
             let spec = if (j as usize) < all.len() {
@@ -455,7 +456,7 @@ impl Monitor for C08 {
         names
     }
     fn rule(&self) -> String {
-        "trial = a view (every kind x N grid x degenerate and benign input classes), PFE/EFT with each MA, or a random 2-3 level chain / combinator with a Tap on every node; per node: once Some never None again, every Some finite, as long as the node's own inputs (its child's outputs) stayed finite, in domain and of moderate magnitude (zero or within 2^-40..2^40); single views: step of first Some against the documented warm-up table (also with streams shorter than the warm-up); wrappers over a Script that answers None for 1..40 updates must keep their construction-time answer; long runs of 1e4 (quick) / 1e6 (thorough) updates. f64 (release and dev), f32, exact rational. distinct = distinct (tree, input hash, scalar)".into()
+        "trial = a view (every kind x N grid x degenerate and benign input classes), PFE/EFT with each MA, or a random 2-3 level chain / combinator with a Tap on every node; per node: once Some never None again, every Some finite, as long as the node's own inputs (its child's outputs) stayed finite, in domain and of moderate magnitude (zero or within 2^-40..2^40); single views: step of first Some against the documented warm-up table (also with streams shorter than the warm-up); wrappers over a Script that answers None for 1..40 updates must keep their construction-time answer; long runs of 7e4 (quick) / 1e6 (thorough) updates. f64 (release and dev), f32, exact rational. distinct = distinct (tree, input hash, scalar)".into()
     }
     fn assumptions(&self) -> Vec<String> {
         vec![
